@@ -131,7 +131,9 @@ def _label(lk, x):
         if lk == "text":
             return x if isinstance(x, str) else ("!", repr(x))
         if lk == "int":
-            return int(x)
+            return int(x) if not isinstance(x, (bool, np.bool_)) else ("!", repr(x))
+        if lk == "bool":
+            return bool(x) if isinstance(x, (bool, np.bool_)) else ("!", repr(x))
         f = float(x)
         return MISSING if f != f else f.hex()
     except Exception:
